@@ -13,13 +13,14 @@
 (* joins the tokens with the chosen separator and feeds the text to all ten entry points.       *)
 EXTENDS Naturals, Sequences, TLC, Json
 
-CONSTANTS MaxSoup, MaxMut, Chains
+CONSTANTS MaxSoup, MaxMut, Chains, GenSizes
 
 Alphabet == << "rule", "\"R\"", "{", "}", "when", "then", "A.x", ">", "==", "5", "\"s\"", "&&", "||", "!", "(", ")", ";", "=", "+", "-",
                "*", "/", "%", "salience", "no-loop", "true", "<MB2>", "<MB3>", "\"", "'", ",", "query", "goal:", "NOT", "OR", "WHERE",
                "count", "?x", "from", "stream", "over", "window", "min", "sliding", "[", "]", ".", "$", "<NUL>", "-2147483648", "1e999",
                "<NL>", "<TAB>", "//", "/*", "*/", "\"a rule\"", "99999999999999999999999", "ms", ":", "tumbling", "\\", "on-success:", "R1",
-               "defmodule", "import:", "export:", "all", "accumulate", "exists", "retract", "#", "18446744073709551615", "hours" >>
+               "defmodule", "import:", "export:", "all", "accumulate", "exists", "retract", "#", "18446744073709551615", "hours",
+               "<KEL>", "<IDOT>" >>          \* U+212A and U+0130: characters whose lower-case form has a different byte length
 Tok(s) == CHOOSE i \in DOMAIN Alphabet : Alphabet[i] = s
 Seeds == << <<"rule", "\"R\"", "salience", "5", "no-loop", "true", "{", "when", "A.x", ">", "5", "&&", "!", "(", "A.x", "==", "\"s\"", ")", "then", "A.x", "=", "A.x", "+", "5", ";", "}">>,
             <<"query", "\"R\"", "{", "goal:", "A.x", "==", "true", "}">>,
@@ -54,7 +55,14 @@ Replace(i, t) == i \in DOMAIN toks /\ toks[i] # t /\ Mut([toks EXCEPT ![i] = t],
 (* prefix chains of a single character, up to the full 4 KiB length; toks unchanged *)
 Chain(c, n) == /\ mode = "seed" /\ nmut = 0 /\ UNCHANGED <<mode, toks, nmut>> /\ last' = Lbl(toks, " ", c, n)
 
+(* size-driven structures (texts up to 4 KiB built by the harness from a kind and a size): layered module imports (every  *)
+(* module of a layer imports both modules of the layer below), long && / || / NOT chains, bracket nesting, many rules,   *)
+(* many actions, a long string literal, a long arithmetic expression                                                     *)
+GenKinds == {"layers", "andchain", "orchain", "notchain", "parens", "manyrules", "manyacts", "longstring", "arith", "manyattrs", "querychain"}
+Gen(kind, n) == /\ mode = "empty" /\ UNCHANGED <<mode, toks, nmut>> /\ last' = [op |-> "text", toks |-> <<>>, sep |-> " ", chain |-> "", n |-> 0, gen |-> kind, size |-> n]
+
 Next == \/ \E k \in DOMAIN Alphabet : Append1(Alphabet[k])
+        \/ \E kind \in GenKinds, n \in GenSizes : Gen(kind, n)
         \/ \E k \in DOMAIN Seeds : Load(k)
         \/ \E i \in 0..40 : Truncate(i) \/ Delete(i) \/ Dup(i) \/ Swap(i)
         \/ \E i \in 0..40, k \in DOMAIN Alphabet : Insert(i, Alphabet[k]) \/ Replace(i, Alphabet[k])
